@@ -1,7 +1,7 @@
 import CanvasModel.C16
 /-! Lemmas for C16 (c): reorderSpans only moves spans (levels, widths and logical order are kept). -/
 namespace Canvas.C16
-variable {α : Type} [Add α]
+variable {α : Type} [Add α] [Sub α] [LT α] [∀ a b : α, Decidable (a < b)]
 
 theorem takeWhile_append_drop {β : Type} (p : β → Bool) (l : List β) :
     l.takeWhile p ++ l.drop (l.takeWhile p).length = l := by
@@ -11,63 +11,37 @@ theorem takeWhile_append_drop {β : Type} (p : β → Bool) (l : List β) :
 
 def lw (s : Span α) : Nat × α := (s.level, s.w)
 
-theorem relayRev_lw (l : List (Span α)) : ∀ x : α, (relayRev x l).map lw = l.map lw := by
+theorem map_mir_lw (lo hi : α) (l : List (Span α)) : (l.map (mir lo hi)).map lw = l.map lw := by
   induction l with
-  | nil => intro x; rfl
-  | cons s r ih => intro x; simp [relayRev, ih, lw]
+  | nil => rfl
+  | cons s r ih => simp [mir, lw, ih]
 
-theorem relayout_lw (run : List (Span α)) (x0 : α) : (relayout run x0).map lw = run.map lw := by
-  unfold relayout
-  rw [List.map_reverse, relayRev_lw, List.map_reverse, List.reverse_reverse]
+theorem mirror_lw (l : List (Span α)) : (mirror l).map lw = l.map lw := by
+  unfold mirror
+  split
+  · rfl
+  · rfl
+  · exact map_mir_lw _ _ _
 
-theorem reorderGo_lw : ∀ (fuel prev : Nat) (l : List (Span α)), (reorderGo fuel prev l).map lw = l.map lw := by
+theorem fixGo_lw : ∀ (fuel prev : Nat) (l : List (Span α)), (fixGo fuel prev l).map lw = l.map lw := by
   intro fuel
   induction fuel with
-  | zero => intro prev l; simp [reorderGo]
+  | zero => intro prev l; simp [fixGo]
   | succ fuel ih =>
     intro prev l
     cases l with
-    | nil => simp [reorderGo]
+    | nil => simp [fixGo]
     | cons s rest =>
-      simp only [reorderGo]
+      simp only [fixGo]
       split
-      · have hsplit : (s :: List.takeWhile (fun t => decide (s.level ≤ t.level)) rest)
-            ++ List.drop (List.takeWhile (fun t => decide (s.level ≤ t.level)) rest).length rest = s :: rest := by
-          have := takeWhile_append_drop (fun t : Span α => decide (s.level ≤ t.level)) rest
-          simp [this]
-        split
-        · rename_i heq
-          have := congrArg (List.map lw) heq
-          rw [List.map_append] at this
-          split at this
-          · rw [relayout_lw, ← List.map_append, hsplit] at this; simpa using this.symm
-          · rw [← List.map_append, hsplit] at this; simpa using this.symm
-        · rename_i s' rest' heq
-          have := congrArg (List.map lw) heq
-          rw [List.map_append] at this
-          simp only [List.map_cons, ih]
-          split at this
-          · rw [relayout_lw, ← List.map_append, hsplit] at this; simpa using this.symm
-          · rw [← List.map_append, hsplit] at this; simpa using this.symm
+      · have hsplit := takeWhile_append_drop (fun t : Span α => decide (prev + 1 ≤ t.level)) rest
+        generalize List.takeWhile (fun t : Span α => decide (prev + 1 ≤ t.level)) rest = inRun at hsplit ⊢
+        generalize List.drop inRun.length rest = tail at hsplit ⊢
+        subst hsplit
+        rw [List.map_append, ih, ih, mirror_lw]
+        simp
       · simp [ih]
 
-theorem reorder_lw (l : List (Span α)) : (reorder l).map lw = l.map lw := reorderGo_lw _ _ _
+theorem reorder_lw (l : List (Span α)) : (reorder l).map lw = l.map lw := fixGo_lw _ _ _
 
-end Canvas.C16
-
-namespace Canvas.C16
-theorem mem_takeWhile_level (lv : Nat) (l : List (Span Int)) :
-    ∀ t ∈ l.takeWhile (fun t => decide (lv ≤ t.level)), lv ≤ t.level := by
-  induction l with
-  | nil => intro t h; simp at h
-  | cons a r ih =>
-    intro t h
-    simp only [List.takeWhile] at h
-    split at h
-    · rename_i ha
-      simp only [List.mem_cons] at h
-      rcases h with rfl | h
-      · simpa using ha
-      · exact ih t h
-    · simp at h
 end Canvas.C16
